@@ -144,6 +144,13 @@ def walkRedirect (c : TCase) (which : String) : RdSt :=
               if explicitHost || v == uriHost s.curUri then s1 else { s with fail := some s!"Host {v} does not name the host of {s.curUri}" }
             | none => { s with fail := some "no Host header in the redirected request" })
          else s1
+       | ["fault", "api:MethodForbidsBody"] =>
+         -- the request built for the redirect takes no body; it can only be refused like this when framing was
+         -- inherited from the previous request (the caller added nothing, the original had no Transfer-Encoding)
+         if (which == "C13" || which == "all") && s.addedNames.isEmpty && !isBodyMethod s.curMethod &&
+            s.origHdrs.any (·.name == "content-length") && !s.origHdrs.any (·.name == "transfer-encoding") then
+           { s with fail := some s!"the {s.curMethod} request created for the redirect is refused as carrying a body: the previous request's Content-Length was inherited" }
+         else s1
        | _ => s1)
     | _ => s1) ({} : RdSt)
 
